@@ -17,12 +17,12 @@ PROPS = {
         "level": "model_checking",
         "quick": {
             "kani": [
-                G("c17-ufseq", "union-find", ["c17_seq_"], jobs=12, ht=300, wall=1200),
+                G("c17-uf", "union-find", ["c17_seq_", "c17_conc_"], jobs=14, ht=900, wall=2400),
             ],
         },
         "thorough": {
             "kani": [
-                G("c17-ufseq", "union-find", ["c17_seq_", "c17t_seq_"], jobs=12, ht=1800, wall=5400),
+                G("c17-uf", "union-find", ["c17_seq_", "c17_conc_", "c17t_"], jobs=14, ht=3600, wall=10800),
             ],
         },
         "rule": ("one Kani harness = one solver query over ALL parent forests of N ids satisfying "
@@ -30,10 +30,56 @@ PROPS = {
                  "non-trivial iff every `witness:` cover in it is SATISFIED (the assumptions are satisfiable "
                  "and the assertions are reached)"),
         "assumptions": [
-            "bounded: N = 5 ids (sequential); no N-dependent constant in the code is an argument, not a proof",
+            "bounded: N = 5 ids (sequential), N = 4 ids (concurrent); no N-dependent constant in the code is an argument, not a proof",
+            "concurrent: interleavings are modelled as <= B writes by an adversarial environment before any atomic access of the call under test (B = 0,1 quick; B <= 2 thorough); the environment performs link / compress steps, shown closed under what the code itself writes (guarantee assertions in SymAtomic::cas/store)",
+            "concurrent: atomics are sequentially consistent in the model (the code uses Acquire/Release/AcqRel); weak-memory reorderings are outside",
+            "concurrent: Buffer is replaced under cfg(kani) by a plain-Vec stand-in (the real one sits on ArcSwap, which crashes the Kani compiler): the resize protocol, reset and deep_copy are outside",
+            "ConcurrentUnionFind<T> instantiated at T = SymAtomic (harness cell type, Underlying = u32)",
             "UnionFind<Value> instantiated at Value = usize",
             "id arguments are case-split concretely (a symbolic id reaching Vec growth in reserve() runs CBMC out of memory)",
             "CBMC/Kani semantics of Rust MIR; unwinding assertions enabled (a too-small unwind bound is reported, not truncated)",
+        ],
+    },
+    "C16": {
+        "level": "model_checking",
+        "quick": {
+            "kani": [
+                G("c16-cr", "core-relations", ["c16_"], jobs=12, ht=1200, wall=3000),
+            ],
+        },
+        "thorough": {
+            "kani": [
+                G("c16-cr", "core-relations", ["c16_", "c16t_"], jobs=12, ht=3600, wall=10800),
+            ],
+        },
+        "rule": ("one Kani harness = one solver query over ALL states of the bounded structure (symbolic row contents, "
+                 "timestamps, offsets, constraint constants; concrete sizes) for one real kernel of the table store; "
+                 "non-trivial iff every `witness:` cover is SATISFIED"),
+        "assumptions": [
+            "kernel level: each reachable index / scan kernel is exact for every state within bounds; operation SEQUENCES on a whole table, hash-table point lookups with symbolic keys, serial/parallel insert, delete, rehash/compaction, Index::refresh and clone are outside the claim",
+            "DisplacedTable: <= 3 displaced rows with non-decreasing timestamps, forest of 4 ids, empty hash lookup table except in the clear harness",
+            "a fast path returning None (fall back to the filtered scan) is always accepted; a wrong range is not",
+            "CBMC/Kani semantics of Rust MIR; unwinding assertions enabled",
+        ],
+    },
+    "C01": {
+        "level": "model_checking",
+        "quick": {
+            "kani": [
+                G("c01-cr", "core-relations", ["c01_"], jobs=6, ht=1200, wall=3000),
+            ],
+        },
+        "thorough": {
+            "kani": [
+                G("c01-cr", "core-relations", ["c01_", "c01t_"], jobs=8, ht=3600, wall=10800),
+            ],
+        },
+        "rule": ("one Kani harness = one solver query over all forests of 4 ids and all contents of one row, for one "
+                 "arm of the real canonicaliser / one merge kernel; non-trivial iff every `witness:` cover is SATISFIED"),
+        "assumptions": [
+            "kernel level only: the union-find (C17), the UnionId merge kernel and the canonicaliser arms are exact; EGraph::rebuild's repeat-until-no-change loop, congruence through key collisions inside SortedWritesTable and matching modulo equality are NOT covered",
+            "forest of 4 ids, one row of <= 5 columns",
+            "CBMC/Kani semantics of Rust MIR; unwinding assertions enabled",
         ],
     },
 }
